@@ -125,7 +125,13 @@ where
     let evals: Vec<E> = elems(&sc["evals"]);
     let pos = usizes_of(&sc["pos"]);
     set_script(alphas_of(&sc["alphas"]), pos.clone());
-    let pr = match prove::<E, H, ScriptedCoin<B, H>>(&options, evals.clone(), pos.len(), n) {
+    // a cheating prover may run the honest algorithm under options of its own (pB / pR: e.g. half the blowup
+    // and a correspondingly larger remainder over the same domain); the verifier always uses B / R
+    let prover_options = match (sc["pB"].as_u64(), sc["pR"].as_u64()) {
+        (Some(b), Some(r)) => winter_fri::FriOptions::new(b as usize, folding, r as usize),
+        _ => options.clone(),
+    };
+    let pr = match prove::<E, H, ScriptedCoin<B, H>>(&prover_options, evals.clone(), pos.len(), n) {
         Ok(p) => p,
         Err(p) => {
             // the honest prover is not what C09 is about: report as a skipped scenario
